@@ -43,6 +43,27 @@ def run(ctx):
         ev("leq", name, a=sci(a), b=sci(b))
 
     warnings.filterwarnings("ignore")
+    # ---- whole-number levels written as integers (Python int, int list, integer ndarray / arange sweep): the same values as for floats
+    for M_ in (2, 4, 16):
+        for dec_ in ("soft", "hard"):
+            for mu_i, s0_, s1_ in ((1, 0.12, 0.2), (3, 0.5, 0.7), (2, 1, 1)):
+                with deadline(60):
+                    ref = float(ppm.theory_BER(float(mu_i), float(s0_), float(s1_), M_, dec_))
+                    got = float(ppm.theory_BER(mu_i, s0_, s1_, M_, dec_))
+                    sweep = ppm.theory_BER(np.arange(mu_i, mu_i + 3), s0_, s1_, M_, dec_)
+                    lst = ppm.theory_BER([mu_i, mu_i + 1], s0_, s1_, M_, dec_)
+                    ref1 = float(ppm.theory_BER(mu_i + 1.0, float(s0_), float(s1_), M_, dec_))
+                eq("value-independent-of-argument-dtype", got + 1e-6, ref + 1e-6, tol=3000)
+                eq("value-independent-of-argument-dtype", float(np.asarray(sweep)[0]) + 1e-6, ref + 1e-6, tol=3000)
+                eq("value-independent-of-argument-dtype", float(np.asarray(sweep)[1]) + 1e-6, ref1 + 1e-6, tol=3000)
+                eq("value-independent-of-argument-dtype", float(np.asarray(lst)[1]) + 1e-6, ref1 + 1e-6, tol=3000)
+        ctx.case(("int-levels", "ppm", M_))
+    for mu_i, s0_, s1_ in ((1, 0.12, 0.2), (3, 0.5, 0.7), (4, 1, 1)):
+        with deadline(60):
+            ref = float(ook.theory_BER(float(mu_i), float(s0_), float(s1_)))
+            eq("value-independent-of-argument-dtype", float(ook.theory_BER(mu_i, s0_, s1_)) + 1e-9, ref + 1e-9, tol=3000)
+            eq("value-independent-of-argument-dtype", float(np.asarray(ook.theory_BER(np.arange(mu_i, mu_i + 2), s0_, s1_))[0]) + 1e-9, ref + 1e-9, tol=3000)
+    ctx.case(("int-levels", "ook"))
     # ---- lattice points against the Q table
     for k in range(0, 9):
         for s in (0.1, 1.0, 3e-3):
